@@ -359,12 +359,13 @@ fn run_real(rules: &[(String, Expr)], symbols: &BTreeMap<String, Value>, facts: 
             b2 = b2.with_function(TestFn { model: m, log: Arc::new(Mutex::new(Vec::new())) }).map_err(|e| format!("with_function: {e}"))?;
         }
         for (k, v) in symbols { b2 = b2.with_symbol(k.clone(), v.clone()); }
-        let batch: Vec<Rule> = rules.iter().map(|(n, e)| Rule::new(n.clone(), BTreeMap::new(), e.clone())).collect();
+        // names in DESCENDING byte order (and one non-ASCII), so that any re-ordering by name shows
+        let want: Vec<String> = rules.iter().enumerate().map(|(k, (n, _))| format!("{}{}{n}", (b'z' - k as u8) as char, if k == 1 { "é" } else { "" })).collect();
+        let batch: Vec<Rule> = rules.iter().zip(&want).map(|((_, e), n)| Rule::new(n.clone(), BTreeMap::new(), e.clone())).collect();
         let rs2 = b2.with_rules(batch).map_err(|e| format!("with_rules: {e}"))?.build();
         let got = catch_unwind(AssertUnwindSafe(|| block_on(rs2.evaluate_value(facts)))).map_err(|_| "PANIC (ruleset built by with_rules)".to_string())?
             .map_err(|e| format!("evaluate_value failed as a whole: {e}"))?;
         let names: Vec<String> = got.iter().map(|o| o.rule.name().to_string()).collect();
-        let want: Vec<String> = rules.iter().map(|(n, _)| n.clone()).collect();
         if names != want {
             return Err(format!("ruleset built by with_rules({want:?}) reports its outcomes in the order {names:?}"));
         }
@@ -540,6 +541,12 @@ fn family_ruleset() {
         // None as an argument and as a (cached) result; a cacheable identity
         call("id", v(Value::None)), call("id", v(1)), call("count", v(Value::None)), call("count_nc", v(Value::None)), call("get_more", v(Value::None)),
         call("boom_reval", v(1)), Expr::add(call("boom_reval", v(1)), v(1)), call("boom_ctx", v(1)),
+        // the same call twice within ONE rule (list items, operands), long multi-byte arguments, a symbol named like an input field
+        Expr::Vec(vec![call("count_nc", v(1)), call("count_nc", v(1))]), Expr::add(call("count_nc", v(1)), call("count_nc", v(1))),
+        Expr::Vec(vec![call("count", v(1)), call("count", v(1)), call("count_nc", v(1)), call("count", v(1))]),
+        Expr::Vec(vec![call("get", v(-1)), call("get", v(-1))]),
+        call("count", v("é".repeat(120))), call("id", v(format!("a{}", "日".repeat(56)))), call("count", v(format!("id {}", "🦀".repeat(40)))), call("count", Expr::Vec(vec![v("é".repeat(97))])),
+        Expr::symbol("x"), Expr::add(Expr::symbol("x"), v(1)),
     ];
     // all pairs and a selection of triples
     for (i, a) in blocks.iter().enumerate() {
@@ -666,6 +673,25 @@ fn family_builder() {
             rep.fail(&["C15"], "add_fn.duplicate", &format!("with_functions([ok1, {n:?}, ok1])"), "accepted", "refused (duplicate ok1)");
         }
     }
+    // function duplicates ACROSS calls: every way of registering "dupf" twice must refuse the second one and name it
+    {
+        let one = |n: &'static str| -> Vec<Box<dyn UserFunction + Send + Sync>> { vec![Box::new(NamedFn(n))] };
+        let attempts: Vec<(&str, Box<dyn Fn() -> reval::Result<Builder>>)> = vec![
+            ("with_function(dupf); with_function(dupf)", Box::new(|| ruleset().with_function(NamedFn("dupf"))?.with_function(NamedFn("dupf")))),
+            ("with_function(dupf); with_functions([dupf])", Box::new(move || ruleset().with_function(NamedFn("dupf"))?.with_functions(one("dupf")))),
+            ("with_functions([dupf]); with_function(dupf)", Box::new(move || ruleset().with_functions(one("dupf"))?.with_function(NamedFn("dupf")))),
+            ("with_functions([dupf]); with_functions([other, dupf])", Box::new(move || ruleset().with_functions(one("dupf"))?.with_functions(vec![Box::new(NamedFn("other")) as Box<dyn UserFunction + Send + Sync>, Box::new(NamedFn("dupf"))]))),
+            ("with_functions([dupf, other]); with_functions([dupf])", Box::new(move || ruleset().with_functions(vec![Box::new(NamedFn("dupf")) as Box<dyn UserFunction + Send + Sync>, Box::new(NamedFn("other"))])?.with_functions(one("dupf")))),
+        ];
+        for (what, mk) in attempts {
+            rep.cases += 1;
+            match mk() {
+                Err(e) if format!("{e}").contains("dupf") => {}
+                Err(e) => rep.fail(&["C15"], "add_fn.duplicate", what, &format!("{e}"), "a refusal naming dupf"),
+                Ok(_) => rep.fail(&["C15"], "add_fn.duplicate", what, "accepted", "refused (duplicate dupf)"),
+            }
+        }
+    }
     // rule-name sequences over a small pool, through with_rule and with_rules
     let rule = |n: &str| Rule::new(n, BTreeMap::new(), Expr::value(1));
     let poolr = ["a", "b", "A", "a "];
@@ -785,6 +811,26 @@ fn family_convert() {
             }
         }};
     }
+    // the offending value is carried WHOLE, however large: lists / maps of 17, 40 and 300 entries as the wrong kind for every target
+    for n in [17usize, 40, 300] {
+        let big_vec = Value::Vec((0..n as i128).map(Value::Int).collect());
+        let big_map = Value::Map((0..n).map(|k| (format!("k{k:04}"), Value::Int(k as i128))).collect());
+        let nested = Value::Vec(vec![big_vec.clone()]);
+        for other in [&big_vec, &big_map, &nested] {
+            macro_rules! carries { ($t:ty, $id:expr) => {{
+                rep.cases += 1;
+                match <$t>::try_from(other.clone()) {
+                    Err(reval::Error::UnexpectedValueType(v, _)) if same_value(&v, other) => {}
+                    r => rep.fail(&["C17"], $id, &format!("{}::try_from(<{} entries>)", stringify!($t), n), &format!("{:?}", r.map(|_| "Ok(..)").map_err(|e| { let t = format!("{e:?}"); t.chars().take(120).collect::<String>() })), "Err(UnexpectedValueType(the same value, _))"),
+                }
+            }}; }
+            carries!(i64, "try_i64.wrong_kind"); carries!(u8, "try_u8.wrong_kind"); carries!(bool, "try_bool.wrong_kind"); carries!(f64, "try_f64.wrong_kind");
+            carries!(String, "try_string.wrong_kind"); carries!(Decimal, "try_decimal.wrong_kind"); carries!(i128, "try_i128.wrong_kind");
+        }
+        rep.cases += 2;
+        match Vec::<i64>::try_from(big_map.clone()) { Err(reval::Error::UnexpectedValueType(v, _)) if same_value(&v, &big_map) => {}, r => rep.fail(&["C17"], "try_vec.wrong_kind", &format!("Vec::<i64>::try_from(<map of {n}>)"), &format!("{:?}", r.map(|_| "Ok(..)").map_err(|_| "another error")), "Err(UnexpectedValueType(the same value, _))") }
+        match BTreeMap::<String, i64>::try_from(big_vec.clone()) { Err(reval::Error::UnexpectedValueType(v, _)) if same_value(&v, &big_vec) => {}, r => rep.fail(&["C17"], "try_btree.wrong_kind", &format!("BTreeMap::<String,i64>::try_from(<list of {n}>)"), &format!("{:?}", r.map(|_| "Ok(..)").map_err(|_| "another error")), "Err(UnexpectedValueType(the same value, _))") }
+    }
     wrong_kind_coll!(Vec<i64>, Value::Vec(_), "try_vec.wrong_kind");
     wrong_kind_coll!(BTreeMap<String, Value>, Value::Map(_), "try_btree_value.wrong_kind"); wrong_kind_coll!(std::collections::HashMap<String, Value>, Value::Map(_), "try_hash_value.wrong_kind");
     wrong_kind_coll!(BTreeMap<String, i64>, Value::Map(_), "try_btree.wrong_kind"); wrong_kind_coll!(std::collections::HashMap<String, i64>, Value::Map(_), "try_hash.wrong_kind");
@@ -882,6 +928,11 @@ mod ser_cases {
     #[derive(Serialize)] pub struct Inner { pub x: f64, pub e: En }
     #[derive(Serialize)] pub enum En { U, N(u16), T(u8, bool), S { k: i8 } }
     #[derive(Serialize)] pub struct Big { pub v: u128 }
+    #[derive(Serialize)] pub enum Wrap { O(Option<u8>), U(()), V(Vec<Option<u8>>), E(Vec<u8>), S(Unit) }
+    pub struct FailsLong(pub String);
+    impl Serialize for FailsLong {
+        fn serialize<S: serde::Serializer>(&self, _s: S) -> Result<S::Ok, S::Error> { Err(serde::ser::Error::custom(&self.0)) }
+    }
     pub struct Fails;
     impl Serialize for Fails {
         fn serialize<S: serde::Serializer>(&self, _s: S) -> Result<S::Ok, S::Error> { Err(serde::ser::Error::custom("boom")) }
@@ -973,6 +1024,24 @@ fn family_ser() {
     case!("duplicate key via serialize_key/value", DupKeysSplit, Ok(map(vec![("k", Value::Int(2))])));
     case!("flattened struct overridden by outer field", Over { base: Base { retries: 1, name: "n".into() }, retries: 5 },
           Ok(map(vec![("name", Value::String("n".into())), ("retries", Value::Int(5))])));
+    // enum variants are tagged by name whatever the payload is (a payload that is none / empty is still a payload)
+    case!("newtype variant of None", Wrap::O(None), Ok(map(vec![("O", Value::None)])));
+    case!("newtype variant of Some", Wrap::O(Some(3)), Ok(map(vec![("O", Value::Int(3))])));
+    case!("newtype variant of ()", Wrap::U(()), Ok(map(vec![("U", Value::None)])));
+    case!("newtype variant of unit struct", Wrap::S(Unit), Ok(map(vec![("S", Value::None)])));
+    case!("newtype variant of [None]", Wrap::V(vec![None]), Ok(map(vec![("V", Value::Vec(vec![Value::None]))])));
+    case!("newtype variant of []", Wrap::E(vec![]), Ok(map(vec![("E", Value::Vec(vec![]))])));
+    case!("vec of newtype variants of None", vec![Wrap::O(None), Wrap::U(())], Ok(Value::Vec(vec![map(vec![("O", Value::None)]), map(vec![("U", Value::None)])])));
+    // a failing Serialize impl whose message is long and multi-byte (error paths that cut or quote the message)
+    for unit in ["é", "日", "𝔘"] {
+        for n in [60usize, 200, 1000] {
+            for pad in 0..4usize {
+                let msg = format!("{}{}", "x".repeat(pad), unit.repeat(n));
+                case!(&format!("failing Serialize with a {}-byte message", msg.len()), FailsLong(msg.clone()), Err(()));
+                case!(&format!("failing element with a {}-byte message", msg.len()), vec![FailsLong(msg.clone())], Err(()));
+            }
+        }
+    }
     case!("failing Serialize", Fails, Err(()));
     case!("failing field", HasFails { ok: 1, bad: Fails }, Err(()));
     case!("failing element", vec![Some(Big { v: 1 }), Some(Big { v: u128::MAX })], Err(()));
@@ -1106,6 +1175,178 @@ fn family_parse(deep: bool) {
     rep.finish();
 }
 
+// ---- text / constructor path: what the grammar actions and the Expr constructors BUILD ------------------------------------------
+// The evaluator families above hand the same tree to the real crate and to the oracle, so a constructor (or a grammar action) that
+// rewrites what it is given -- folds `!!x`, turns `!(a > b)` into `a <= b`, drops the condition of `if c then X else X`, folds a cast of
+// a literal, reads `facts.x` as `x` -- is invisible to them.  Here the EXPECTED tree is written with the raw enum variants.
+fn bx(e: Expr) -> Box<Expr> { Box::new(e) }
+fn raw_unary(name: &str, x: Expr) -> Expr {
+    match name {
+        "not" => Expr::Not(bx(x)), "neg" => Expr::Neg(bx(x)), "some" => Expr::Some(bx(x)), "none" => Expr::None(bx(x)), "int" => Expr::Int(bx(x)),
+        "float" => Expr::Float(bx(x)), "dec" => Expr::Dec(bx(x)), "datetime" => Expr::DateTime(bx(x)), "duration" => Expr::Duration(bx(x)),
+        "uppercase" => Expr::UpperCase(bx(x)), "lowercase" => Expr::LowerCase(bx(x)), "trim" => Expr::Trim(bx(x)), "round" => Expr::Round(bx(x)),
+        "floor" => Expr::Floor(bx(x)), "fract" => Expr::Fract(bx(x)), "year" => Expr::Year(bx(x)), "month" => Expr::Month(bx(x)), "week" => Expr::Week(bx(x)),
+        "day" => Expr::Day(bx(x)), "hour" => Expr::Hour(bx(x)), "minute" => Expr::Minute(bx(x)), "second" => Expr::Second(bx(x)),
+        other => panic!("raw_unary {other}"),
+    }
+}
+fn raw_binary(name: &str, l: Expr, r: Expr) -> Expr {
+    match name {
+        "mult" => Expr::Mult(bx(l), bx(r)), "div" => Expr::Div(bx(l), bx(r)), "rem" => Expr::Rem(bx(l), bx(r)), "add" => Expr::Add(bx(l), bx(r)), "sub" => Expr::Sub(bx(l), bx(r)),
+        "eq" => Expr::Equals(bx(l), bx(r)), "neq" => Expr::NotEquals(bx(l), bx(r)), "gt" => Expr::GreaterThan(bx(l), bx(r)), "gte" => Expr::GreaterThanEquals(bx(l), bx(r)),
+        "lt" => Expr::LessThan(bx(l), bx(r)), "lte" => Expr::LessThanEquals(bx(l), bx(r)), "and" => Expr::And(bx(l), bx(r)), "or" => Expr::Or(bx(l), bx(r)),
+        "bitwise_and" => Expr::BitAnd(bx(l), bx(r)), "bitwise_or" => Expr::BitOr(bx(l), bx(r)), "bitwise_xor" => Expr::BitXor(bx(l), bx(r)), "contains" => Expr::Contains(bx(l), bx(r)),
+        other => panic!("raw_binary {other}"),
+    }
+}
+fn text_tags(top: &str) -> Vec<&'static str> {
+    match top {
+        "not" | "and" | "or" => vec!["C02", "C03", "C04"],
+        "eq" | "neq" | "gt" | "gte" | "lt" | "lte" | "some" | "none" => vec!["C02", "C04"],
+        "iif" => vec!["C02", "C05", "C03", "C04"],
+        "int" | "float" | "dec" | "datetime" | "duration" => vec!["C02", "C01"],
+        "index" | "ref" | "symbol" => vec!["C10"],
+        _ => vec!["C02"],
+    }
+}
+/// run `built` (made by constructors or by the parser) on the real crate, `expected_tree` (raw variants) through the oracle
+fn check_built(rep: &mut Report, what: &str, top: &str, built: &Expr, expected_tree: &Expr, facts: &Value) {
+    rep.cases += 1;
+    let syms = BTreeMap::new();
+    let rules_real = vec![("r".to_string(), built.clone())];
+    let rules_model = vec![("r".to_string(), expected_tree.clone())];
+    let (exp_out, exp_log) = run_model(&rules_model, &syms, facts);
+    match run_real(&rules_real, &syms, facts, 1) {
+        Err(e) => rep.fail(&["C02"], "text.setup", what, &e, "ruleset builds"),
+        Ok(runs) => {
+            let run = &runs[0];
+            match &run.outcomes {
+                Err(e) => rep.fail(&["C01"], "text.safety", what, e, &format!("{:?}", exp_out[0].1)),
+                Ok(os) => {
+                    if !same_res(&os[0].1, &exp_out[0].1) {
+                        let mut t = text_tags(top);
+                        if matches!(os[0].1, Ok(_)) && matches!(exp_out[0].1, Err(RErr::InvalidCast) | Err(RErr::OutOfBounds)) && !t.contains(&"C01") { t.push("C01"); }
+                        rep.fail(&t, &format!("ctor_{top}.exact"), &format!("{what}   [facts = {facts}]"), &format!("{:?}", os[0].1), &format!("{:?} (the value of the tree {expected_tree})", exp_out[0].1));
+                    } else if run.log != exp_log {
+                        rep.fail(&["C05"], &format!("ctor_{top}.exact"), what, &format!("calls {:?}", run.log.iter().map(|c| format!("{}({})", c.name, c.arg)).collect::<Vec<_>>()),
+                                 &format!("{:?}", exp_log.iter().map(|c| format!("{}({})", c.name, c.arg)).collect::<Vec<_>>()));
+                    }
+                }
+            }
+        }
+    }
+}
+
+fn family_text() {
+    let mut rep = Report::new("text");
+    let mut fm = BTreeMap::new();
+    fm.insert("x".to_string(), Value::Int(5));
+    fm.insert("n".to_string(), Value::None);
+    let mut inner = BTreeMap::new();
+    inner.insert("id".to_string(), Value::Int(1));
+    fm.insert("facts".to_string(), Value::Map(inner));
+    let facts = Value::Map(fm);
+    let leaves: Vec<Value> = vec![Value::Int(1), Value::Int(0), Value::Bool(true), Value::Bool(false), Value::None, Value::Float(1e39), Value::Float(f64::NAN), Value::Float(2.5),
+                                  Value::Int(i128::MAX), Value::String("true".into()), Value::String("é".into()), Value::Vec(vec![]), Value::Decimal(rust_decimal::Decimal::new(25, 1))];
+    let uns = unary_ops();
+    let bins = binary_ops();
+    let pairs: Vec<(Value, Value)> = vec![(Value::Int(1), Value::Int(2)), (Value::None, Value::Int(10)), (Value::Int(10), Value::None), (Value::Bool(true), Value::Bool(false)),
+                                          (Value::Bool(false), Value::Int(1)), (Value::Float(2.5), Value::Int(1)), (Value::Int(1), Value::Int(1))];
+    // constructor(leaf), constructor(constructor(leaf)), constructor(constructor(leaf, leaf)): every pair of operators
+    for (n1, f1) in &uns {
+        for a in &leaves {
+            let la = Expr::Value(a.clone());
+            check_built(&mut rep, &format!("Expr::{n1}({a})"), n1, &f1(la.clone()), &raw_unary(n1, la.clone()), &facts);
+            for (n2, f2) in &uns {
+                check_built(&mut rep, &format!("Expr::{n1}(Expr::{n2}({a}))"), n1, &f1(f2(la.clone())), &raw_unary(n1, raw_unary(n2, la.clone())), &facts);
+            }
+        }
+        for (n2, f2) in &bins {
+            for (a, b) in &pairs {
+                let (la, lb) = (Expr::Value(a.clone()), Expr::Value(b.clone()));
+                check_built(&mut rep, &format!("Expr::{n1}(Expr::{n2}({a}, {b}))"), n1, &f1(f2(la.clone(), lb.clone())), &raw_unary(n1, raw_binary(n2, la, lb)), &facts);
+            }
+        }
+    }
+    for (n1, f1) in &bins {
+        for (a, b) in &pairs {
+            let (la, lb) = (Expr::Value(a.clone()), Expr::Value(b.clone()));
+            check_built(&mut rep, &format!("Expr::{n1}({a}, {b})"), n1, &f1(la.clone(), lb.clone()), &raw_binary(n1, la.clone(), lb.clone()), &facts);
+            // an observable operand on either side (a constructor must not look at how an operand is written)
+            let pa = Expr::Function("probe".into(), bx(la.clone()));
+            let pb = Expr::Function("probe".into(), bx(lb.clone()));
+            check_built(&mut rep, &format!("Expr::{n1}(probe({a}), {b})"), n1, &f1(Expr::func("probe", la.clone()), lb.clone()), &raw_binary(n1, pa.clone(), lb.clone()), &facts);
+            check_built(&mut rep, &format!("Expr::{n1}({a}, probe({b}))"), n1, &f1(la.clone(), Expr::func("probe", lb.clone())), &raw_binary(n1, la.clone(), pb.clone()), &facts);
+            check_built(&mut rep, &format!("Expr::{n1}(probe({a}), probe({a}))"), n1, &f1(Expr::func("probe", la.clone()), Expr::func("probe", la.clone())), &raw_binary(n1, pa.clone(), pa.clone()), &facts);
+        }
+    }
+    // if: equal branches, literal conditions
+    let conds = vec![Expr::Function("probe".into(), bx(Expr::Value(Value::Bool(true)))), Expr::Function("probe".into(), bx(Expr::Value(Value::Int(5)))),
+                     Expr::Div(bx(Expr::Value(Value::Int(1))), bx(Expr::Value(Value::Int(0)))), Expr::Value(Value::Bool(true)), Expr::Value(Value::None), Expr::Value(Value::Int(1))];
+    let branches = vec![(Expr::Value(Value::Int(0)), Expr::Value(Value::Int(0))), (Expr::Value(Value::Int(1)), Expr::Value(Value::Int(2))),
+                        (Expr::Function("probe".into(), bx(Expr::Value(Value::Int(1)))), Expr::Function("probe".into(), bx(Expr::Value(Value::Int(1)))))];
+    for c in &conds {
+        for (y, n) in &branches {
+            check_built(&mut rep, &format!("Expr::iif({c}, {y}, {n})"), "iif", &Expr::iif(c.clone(), y.clone(), n.clone()), &Expr::If(bx(c.clone()), bx(y.clone()), bx(n.clone())), &facts);
+        }
+    }
+    // index / reference / symbol / function constructors
+    let two_probes = || vec![Expr::Function("probe".into(), bx(Expr::Value(Value::Int(1)))), Expr::Function("probe".into(), bx(Expr::Value(Value::Int(2))))];
+    let shapes: Vec<(Expr, Expr, &str)> = vec![
+        (Expr::index(Expr::reff("facts"), Index::Map("x".into())), Expr::Index(bx(Expr::Reference("facts".into())), Index::Map("x".into())), "index"),
+        (Expr::index(Expr::reff("facts"), Index::Map("missing".into())), Expr::Index(bx(Expr::Reference("facts".into())), Index::Map("missing".into())), "index"),
+        (Expr::index(Expr::reff("facts"), Index::Map("facts".into())), Expr::Index(bx(Expr::Reference("facts".into())), Index::Map("facts".into())), "index"),
+        (Expr::index(Expr::Vec(two_probes()), Index::Vec(1)), Expr::Index(bx(Expr::Vec(two_probes())), Index::Vec(1)), "index"),
+        (Expr::index(Expr::Vec(two_probes()), Index::Vec(7)), Expr::Index(bx(Expr::Vec(two_probes())), Index::Vec(7)), "index"),
+        (Expr::reff("x"), Expr::Reference("x".into()), "ref"), (Expr::symbol("x"), Expr::Symbol("x".into()), "symbol"),
+        (Expr::func("probe", Expr::none_value()), Expr::Function("probe".into(), bx(Expr::Value(Value::None))), "ref"),
+    ];
+    for (built, raw, top) in &shapes {
+        check_built(&mut rep, &format!("{built}"), top, built, raw, &facts);
+    }
+    // parsed text against hand-written trees (what the grammar actions build)
+    let i = |n: i128| Expr::Value(Value::Int(n));
+    let r = |n: &str| Expr::Reference(n.to_string());
+    let p = |e: Expr| Expr::Function("probe".into(), bx(e));
+    let texts: Vec<(&str, Expr, &str)> = vec![
+        ("!!i1", Expr::Not(bx(Expr::Not(bx(i(1))))), "not"),
+        ("!!true", Expr::Not(bx(Expr::Not(bx(Expr::Value(Value::Bool(true)))))), "not"),
+        ("!(n > i10)", Expr::Not(bx(Expr::GreaterThan(bx(r("n")), bx(i(10))))), "not"),
+        ("!(x <= n)", Expr::Not(bx(Expr::LessThanEquals(bx(r("x")), bx(r("n"))))), "not"),
+        ("!(n == n)", Expr::Not(bx(Expr::Equals(bx(r("n")), bx(r("n"))))), "not"),
+        ("if probe(x) then i0 else i0", Expr::If(bx(p(r("x"))), bx(i(0)), bx(i(0))), "iif"),
+        ("int(f1e39)", Expr::Int(bx(Expr::Value(Value::Float(1e39)))), "int"),
+        ("int(float(i170141183460469231731687303715884105727))", Expr::Int(bx(Expr::Float(bx(i(i128::MAX))))), "int"),
+        ("float(int(f2.5))", Expr::Float(bx(Expr::Int(bx(Expr::Value(Value::Float(2.5)))))), "float"),
+        ("facts.x", Expr::Index(bx(r("facts")), Index::Map("x".into())), "index"),
+        ("facts.missing", Expr::Index(bx(r("facts")), Index::Map("missing".into())), "index"),
+        ("facts.facts", Expr::Index(bx(r("facts")), Index::Map("facts".into())), "index"),
+        ("facts.facts.id", Expr::Index(bx(Expr::Index(bx(r("facts")), Index::Map("facts".into()))), Index::Map("id".into())), "index"),
+        ("(facts).facts.id", Expr::Index(bx(Expr::Index(bx(r("facts")), Index::Map("facts".into()))), Index::Map("id".into())), "index"),
+        ("facts.0", Expr::Index(bx(r("facts")), Index::Vec(0)), "index"),
+        ("x and false", Expr::And(bx(r("x")), bx(Expr::Value(Value::Bool(false)))), "and"),
+        ("probe(true) or true", Expr::Or(bx(p(Expr::Value(Value::Bool(true)))), bx(Expr::Value(Value::Bool(true)))), "or"),
+        ("probe(true) and false", Expr::And(bx(p(Expr::Value(Value::Bool(true)))), bx(Expr::Value(Value::Bool(false)))), "and"),
+        ("x * i1", Expr::Mult(bx(r("x")), bx(i(1))), "mult"),
+        ("n + i0", Expr::Add(bx(r("n")), bx(i(0))), "add"),
+        ("-(-x)", Expr::Neg(bx(Expr::Neg(bx(r("x"))))), "neg"),
+        ("x == x", Expr::Equals(bx(r("x")), bx(r("x"))), "eq"),
+        ("n != n", Expr::NotEquals(bx(r("n")), bx(r("n"))), "neq"),
+        ("probe(x) == probe(x)", Expr::Equals(bx(p(r("x"))), bx(p(r("x")))), "eq"),
+        ("i1 in [i1]", Expr::Contains(bx(Expr::Vec(vec![i(1)])), bx(i(1))), "contains"),
+        ("[probe(i1), probe(i2)].0", Expr::Index(bx(Expr::Vec(vec![p(i(1)), p(i(2))])), Index::Vec(0)), "index"),
+        ("{a: probe(i1), b: probe(i2)}.b", Expr::Index(bx(Expr::Map([("a".to_string(), p(i(1))), ("b".to_string(), p(i(2)))].into_iter().collect())), Index::Map("b".into())), "index"),
+    ];
+    for (text, raw, top) in &texts {
+        match catch_unwind(AssertUnwindSafe(|| Expr::parse(text))) {
+            Ok(Ok(parsed)) => check_built(&mut rep, &format!("Expr::parse({text:?})"), top, &parsed, raw, &facts),
+            Ok(Err(e)) => { rep.cases += 1; rep.fail(&["C06"], "text.parse", text, &format!("Err({e})"), "a tree"); }
+            Err(_) => { rep.cases += 1; rep.fail(&["C06"], "text.parse", text, "PANIC", "a tree"); }
+        }
+    }
+    rep.finish();
+}
+
 fn main() {
     std::panic::set_hook(Box::new(|_| {})); // panics are caught and reported as failing cases
     let args: Vec<String> = std::env::args().skip(1).collect();
@@ -1113,6 +1354,7 @@ fn main() {
         match a.as_str() {
             "ops" => family_ops(),
             "compose" => family_compose(),
+            "text" => family_text(),
             "lazy" => family_lazy(),
             "ruleset" => family_ruleset(),
             "builder" => family_builder(),
